@@ -164,6 +164,18 @@ func c06Truncation(w *core.WorkerCtx) {
 		return
 	}
 	longScenario(w, []string{"C06"}, 1000, ledger.LongOpts{Nodes: 1, Size: 1040, Truncations: 1, PostOps: 40})
+	// two truncations, a wallet that is drained to exactly zero in between: the second checkpoint must replace the first
+	longScenario(w, []string{"C06"}, 1001, ledger.LongOpts{Nodes: 1, Size: 1030, Truncations: 2, Between: 1060, PostOps: 30})
+}
+
+// c03Truncation: replay protection across a truncation: checkpointed vertices and transactions offered again (the same
+// vertex, the same transaction proposed again, the same transaction re-wrapped by another sealer) and hostile replay
+// traffic afterwards, under the uniqueness / index oracle over live and checkpointed vertices.
+func c03Truncation(w *core.WorkerCtx) {
+	if w.Batch != 2 && !(w.Thorough() && w.Batch%8 == 2) {
+		return
+	}
+	longScenario(w, []string{"C03"}, 1002, ledger.LongOpts{Nodes: 1, Size: 1030, Truncations: 1, PostOps: 60})
 }
 
 func init() {
